@@ -24,7 +24,15 @@ fi
 rm -f "$log"
 cd "$here" || exit 2
 case "$mode" in
-  quick|thorough) exec "$here/harness/target/release/$bin" check "$id" "$mode" ;;
+  quick) exec "$here/harness/target/release/$bin" check "$id" "$mode" ;;
+  thorough)
+    "$here/harness/target/release/$bin" check "$id" "$mode"; rc=$?
+    # coverage-guided stage (libFuzzer) for the properties decided on the simulated engines
+    case "$id" in
+      C01|C02|C03|C04|C09|C10|C11)
+        if [ "$rc" = 0 ]; then python3 "$here/tools/fuzz_stage.py" "$id"; rc=$?; fi ;;
+    esac
+    exit $rc ;;
   replay) exec "$here/harness/target/release/$bin" replay "$id" "$path" ;;
   *) echo "usage: run.sh <quick|thorough|replay> <id> [path]" >&2; exit 2 ;;
 esac
